@@ -128,6 +128,29 @@ template <class Real> void runCase(long kk, uint64_t seed, Result& res) {
         compare(T, T1, incI, sabI, nt, res, "c20:inner", ctx);
         if (nt <= 1) for (int k = 0; k < 4; ++k) if (nt == 1 && std::memcmp(&T1.rhs[k][0], &T.rhs[k][0], sizeof(Real)) != 0) res.fail("c20:inner-self-term", ctx);
     }
+    // (4) mutual on a cloud and its own shifted image, with ONE set of result arrays passed for both sides - what the kernels do for a
+    //     leaf that is its own periodic neighbour (tree height 1): every ordered pair (t, s) adds the action on t and the reaction on s
+    //     into the same arrays, the pair (i, image of i) included
+    if (nt >= 1 && kk % 3 == 0) {
+        auto T1 = T;
+        Cloud<Real> Img = T;   // image positions: shifted by a whole "box" of this cloud's scale along a random direction
+        const int dir = int(r.below(3)); const Real shift = Real((r.coin() ? 4.0 : -4.0) * scale);
+        for (long i = 0; i < nt; ++i) Img.v[size_t(dir)][size_t(i)] = Real(T.v[size_t(dir)][size_t(i)] + shift);
+        std::array<std::vector<LD>, 4> inc, sab; for (int k = 0; k < 4; ++k) { inc[k].assign(size_t(nt), 0); sab[k].assign(size_t(nt), 0); }
+        for (long t = 0; t < nt; ++t) for (long q = 0; q < nt; ++q) {
+            const LD dx = (LD)Img.v[0][q] - T.v[0][t], dy = (LD)Img.v[1][q] - T.v[1][t], dz = (LD)Img.v[2][q] - T.v[2][t];
+            const LD r2 = dx * dx + dy * dy + dz * dz, rr = std::sqrt(r2);
+            const LD c = (LD)T.v[3][t] * T.v[3][q] / (r2 * rr);
+            const LD f[3] = {c * dx, c * dy, c * dz};
+            for (int k = 0; k < 3; ++k) { inc[k][size_t(t)] += f[k]; inc[k][size_t(q)] -= f[k]; sab[k][size_t(t)] += std::fabs(f[k]); sab[k][size_t(q)] += std::fabs(f[k]); }
+            inc[3][size_t(t)] += (LD)T.v[3][q] / rr; inc[3][size_t(q)] += (LD)T.v[3][t] / rr;
+            sab[3][size_t(t)] += std::fabs((LD)T.v[3][q]) / rr; sab[3][size_t(q)] += std::fabs((LD)T.v[3][t]) / rr;
+        }
+        auto out = T1.out(); const auto imgd = Img.data(); const auto td = T1.data();
+        FP2PR::template FullMutual<Real>(imgd, out, nt, td, out, nt);
+        compare(T, T1, inc, sab, 2 * nt, res, "c20:mutual-own-image", ctx + " shift along " + vh::str(dir));
+        res.ev("p2p-own-image-cases");
+    }
     res.sig = ctx; res.nontrivial = ns >= 1 && nt >= 1;
 }
 } // namespace
